@@ -123,6 +123,10 @@ def values(chk, wa):
     chk.tlc(res, "WaGen (zero values and initialisers of composite types in 23 contexts)")
     sks = [json.loads(common.parse_printt(l, "T")[0]) for l in res.lines]
     sks = sorted((s for s in sks if s["expect"] == "compiles"), key=lambda s: (s["ctx"], s["type"]))
+    if chk.tier == "quick":
+        # every context for the base types; the composed types in the contexts that store or copy a value (each skeleton is a compiler run of its own)
+        key_ctx = {"local-init", "global-init", "map-value", "iface-box", "append-elem", "struct-literal-field", "assign-through-ptr", "multi-result", "eq-self"}
+        sks = [s for s in sks if len(s["type"]) == 1 or s["ctx"] in key_ctx]
 
     def job(isk):
         i, sk = isk
